@@ -596,3 +596,36 @@ func init() {
 		}
 	})
 }
+
+func init() {
+	// memberlist.kRandomNodes(k, nodes, exclude): nondeterministic choice of min(k, #eligible) distinct eligible
+	// nodes (rotation of the eligible list). The real function's random probing may also return fewer; not modelled.
+	reg(mlPkg+".kRandomNodes", func(p *Path, th *thread, caller *frame, pos token.Pos, fn *ssa.Function, args []Value) Value {
+		k := int(p.concretize(termArg(args[0]), "kRandomNodes k"))
+		nodes := args[1].(SliceVal)
+		var elig []Value
+		for i := 0; i < nodes.N; i++ {
+			ns := nodes.Back[i].(*Value)
+			ex := tFalse
+			if _, isNil := args[2].(FuncNil); !isNil {
+				ex = p.call(th, caller, pos, args[2], []Value{ns}).(*Term)
+			}
+			if !p.branch(ex) {
+				// state.Node (field 0 of nodeState)
+				elig = append(elig, copyVal((*ns).(StructVal)[0]))
+			}
+		}
+		p.note("stub: kRandomNodes = nondeterministic choice of min(k, #eligible) eligible nodes")
+		if k > len(elig) {
+			k = len(elig)
+		}
+		out := make([]Value, 0, k)
+		if k > 0 {
+			rot := p.choose(len(elig))
+			for i := 0; i < k; i++ {
+				out = append(out, elig[(rot+i)%len(elig)])
+			}
+		}
+		return SliceVal{Back: out, N: len(out), Nil: false}
+	})
+}
